@@ -13,6 +13,7 @@ from pbsym import ctx, rig as rigm, script as sc
 from pbsym.ctx import B
 
 PROPERTY = 'C03'
+TECHNIQUE = 'CrossHair/z3 symbolic execution of output capture over symbolic programs and edits; oracle from an independent call-site journal; concrete real-jsonpickle validator for repeated instances'
 FUNCTIONS = ['playback/tape_recorder.py::TapeRecorder._intercept_output',
              'playback/tape_recorder.py::TapeRecorder._record_output',
              'playback/tape_recorder.py::TapeRecorder._output_interception_key',
